@@ -713,6 +713,22 @@ class Model:
             # N.B. Any parameter expression elimination must be done first.
             symbols = self._symbols(self.constants)
             values = [v.value for v in self.constants]
+
+            # A constant may be defined in terms of other constants (c2 = 2 * c1);
+            # since all constants are removed, resolve those first.
+            if len(values) > 0 and any(isinstance(v, ca.MX) and not v.is_constant() for v in values):
+                values = [ca.MX(v) for v in values]
+                for _ in range(SUBSTITUTE_LOOP_LIMIT):
+                    new_values = ca.substitute(values, symbols, values)
+                    converged = ca.is_equal(
+                        ca.veccat(*values), ca.veccat(*new_values), CASADI_COMPARISON_DEPTH
+                    )
+                    values = new_values
+                    if converged:
+                        break
+                else:
+                    logger.warning("Substitution of expressions exceeded maximum iteration limit.")
+
             if len(self.equations) > 0:
                 self.equations = ca.substitute(self.equations, symbols, values)
             if len(self.initial_equations) > 0:
